@@ -42,6 +42,7 @@ func run(c *vrt.Ctx) {
 		{"index", checkIndexHelpers},
 		{"window", checkWindows},
 		{"domain", checkDomain},
+		{"dirty", checkDirtyBuffers},
 	}
 	for _, s := range subs {
 		if *flagSub != "" {
